@@ -1751,7 +1751,12 @@ class Run:
                 cls = v.ty.name if isinstance(v.ty, T.Val) else v.ty.cls
                 q = resolve_method(cls, "__hash__")
                 if q:
-                    return self.call_function(q, [v], {})
+                    r = self.call_function(q, [v], {})
+                    if isinstance(r, SV) and r.ty == T.INT:
+                        # the builtin hash() never returns -1 (CPython maps a __hash__ result of -1 to -2); results of
+                        # magnitude >= 2**61 - 1 would additionally be reduced (not modelled: stated range assumption)
+                        return SV(T.INT, z3.If(r.z == -1, z3.IntVal(-2), r.z))
+                    return r
             return SV(T.INT, H.fresh(name, H.I))
         if name in ("list", "set", "dict") and not args:
             return EmptyContainer(name)
